@@ -27,6 +27,19 @@ def world():
     w['same'] = lambda a, b: z3.BoolVal(a is b)
     w['kid_names'] = lambda xs, *names: z3.BoolVal(isinstance(xs, PyList) and [getattr(x, 'what', None) for x in xs.items] == [f'raw:{n}' for n in names])
     w['__bases__'] = {}
+    w['is_impl'] = lambda x, cls: z3.BoolVal(isinstance(x, Obj) and x.cls == cls)
+    w['is_locations'] = lambda x, name: z3.BoolVal(isinstance(x, Opaque) and x.what == f'locations:{name}')
+
+    def built_by(ctx, cls, name):
+        f = ctx.f if isinstance(ctx, Obj) else {}
+        ok = f.get('by') == cls and isinstance(f.get('locations'), Opaque) and f['locations'].what == f'locations:{name}' and \
+            isinstance(f.get('options'), Opaque) and f['options'].what == f'options:{name}' and \
+            isinstance(f.get('la_url'), Opaque) and f['la_url'].what == f'la_url:{name}_la_url'
+        return z3.BoolVal(bool(ok))
+    w['built_by'] = built_by
+    w['is_named'] = lambda x, n: z3.BoolVal(isinstance(x, Opaque) and x.what == n)
+    w['names_are'] = lambda xs, names: z3.BoolVal(isinstance(xs, PyList) and [getattr(x, 'what', None) for x in xs.items] == list(names.items if isinstance(names, PyList) else names))
+    w['__inline_ctors__'] = {'DrmContextIterator': 'dashlive/server/requesthandler/drm_context.py'}
     return w
 
 
@@ -246,6 +259,92 @@ MARLIN_CTX = Contract(
 )
 
 
+# ----------------------------------------------------------------------------- DrmContext: selection -> one context per system, name order
+DCX = 'dashlive/server/requesthandler/drm_context.py'
+IMPL = {'playready': 'PlayReady', 'marlin': 'Marlin', 'clearkey': 'ClearKey'}
+SELECTIONS = [(), ('playready',), ('marlin',), ('clearkey',), ('playready', 'clearkey'), ('clearkey', 'marlin', 'playready'),
+              ('marlin', 'clearkey')]
+
+
+def selection_env(sel):
+    return PyList([(name, Opaque(f'locations:{name}')) for name in sel])
+
+
+def drm_impl(name):
+    return lambda eng, a, kw: Obj(name, {})
+
+
+def location_tuples(sel):
+    ens = [('one_tuple_per_selected_system', f'length(result) == {len(sel)}')]
+    for k, name in enumerate(sel):
+        ens.append((f'tuple{k}', f"result[{k}][0] == {name!r} and is_impl(result[{k}][1], {IMPL[name]!r}) and "
+                                 f"is_locations(result[{k}][2], {name!r})"))
+    return Contract(
+        key=f'{DCX}:DrmContext.generate_drm_location_tuples', variant='+'.join(sel) or 'none', props=['C10', 'C16'],
+        env=lambda w: {'options': Obj('OptionsContainer', {'drmSelection': selection_env(sel)})},
+        models={'DrmSystem.values': lambda eng, e, a, kw: PyList(['playready', 'marlin', 'clearkey'])},
+        ctors={v: drm_impl(v) for v in IMPL.values()},
+        ensures=ens,
+        applies=lambda fr: isinstance(fr.get('options'), Obj) and isinstance(fr['options'].f.get('drmSelection'), PyList) and
+        tuple(t[0] for t in fr['options'].f['drmSelection'].items) == tuple(sel),
+        # what the postcondition says, as a value: (name, an instance of that system's class, the locations handed in)
+        result=lambda eng, fr: PyList([(n, Obj(IMPL[n], {}), loc) for n, loc in fr['options'].f['drmSelection'].items]),
+        canaries=['length(result) == 9'],
+        witness_terms=lambda w: (lambda ev: {}),
+    )
+
+
+def drm_context_init(sel):
+    """DrmContext.__init__ then iter(): the contexts come out in name order, each built by its own system for its own
+    locations, its own option group and its own <name>_la_url request parameter"""
+    def env(w):
+        opts = Obj('OptionsContainer', dict({'drmSelection': selection_env(sel)}, **{n: Opaque(f'options:{n}') for n in IMPL}))
+        return {'self': Obj('DrmContext', {}), 'stream': Obj('Stream', {}), 'keys': Opaque('keys'), 'options': opts}
+
+    def gmc(eng, e, a, kw):
+        recv = eng.eval(e.func.value)
+        return Obj('DrmManifestContext', {'by': recv.cls, 'stream': a[0], 'keys': a[1], 'options': a[2], 'la_url': kw.get('la_url'),
+                                          'locations': kw.get('locations'), 'https_request': kw.get('https_request')})
+
+    def sequel_env(eng, env_after, value):
+        return {'self': env_after['self'], 'stream': env_after['stream'], 'keys': env_after['keys'], 'options': env_after['options']}
+    order = sorted(sel)
+    ens = [('one_context_per_selected_system', f'length(result.contexts) == {len(order)}')]
+    for k, name in enumerate(order):
+        ens.append((f'context{k}_is_{name}', f"built_by(result.contexts[{k}], {IMPL[name]!r}, {name!r}) and "
+                                            f'result.contexts[{k}].stream is stream and result.contexts[{k}].keys is keys'))
+    return Contract(
+        key=f'{DCX}:DrmContext.__init__', variant='+'.join(sel) or 'none', props=['C10'],
+        env=env,
+        models={'DrmSystem.values': lambda eng, e, a, kw: PyList(['playready', 'marlin', 'clearkey']),
+                'drm.generate_manifest_context': gmc, 'is_https_request': lambda eng, e, a, kw: False,
+                'flask.request.args.get': lambda eng, e, a, kw: Opaque('la_url:' + a[0])},
+        ctors={v: drm_impl(v) for v in IMPL.values()},
+        sequel={'qual': 'DrmContext.__iter__', 'env': sequel_env},
+        ensures=ens,
+        canaries=['length(result.contexts) == 9'],
+        witness_terms=lambda w: (lambda ev: {}),
+    )
+
+
+def iterator_next(n):
+    items = [f'ctx{k}' for k in range(n)]
+    return Contract(
+        key=f'{DCX}:DrmContextIterator.__next__', variant=f'{n}left', props=['C10'],
+        env=lambda w: {'self': Obj('DrmContextIterator', {'contexts': PyList([Opaque(x) for x in items])})},
+        modifies=['self.contexts'],
+        ensures=[('yields_the_first_and_keeps_the_rest_in_order',
+                  f"is_named(result, 'ctx0') and names_are(self.contexts, {items[1:]!r})")] if n else [],
+        raises={} if n else {'StopIteration': 'True'},
+        canaries=["is_named(result, 'ctx9')"] if n else [],
+        witness_terms=lambda w: (lambda ev: {}),
+    )
+
+
+DRM_NEXT = [iterator_next(0), iterator_next(1), iterator_next(3)]
+DRM_TUPLES = [location_tuples(sel) for sel in SELECTIONS]
+DRM_CONTEXT = [drm_context_init(sel) for sel in SELECTIONS]
+
 # ----------------------------------------------------------------------------- the boxes the hooks build
 def pssh_ctor(eng, a, kw):
     return Obj('ContentProtectionSpecificBox', dict(kw))
@@ -289,14 +388,16 @@ CLEARKEY_PSSH = Contract(
 GROUP = Group(
     name='drm', world=lambda: dict(world(), children_are=children_are, pssh_all_for_default_kid=pssh_all_for_default_kid,
                                    the_pro=Opaque('pro'), playready_system_id=Opaque('pr_sysid'), clearkey_system_id=Opaque('ck_sysid')),
-    contracts=INIT + [playready_ctx(2.0), playready_ctx(1.0), CLEARKEY_CTX, MARLIN_CTX, playready_pssh(1), playready_pssh(3), CLEARKEY_PSSH],
+    contracts=INIT + [playready_ctx(2.0), playready_ctx(1.0), CLEARKEY_CTX, MARLIN_CTX, playready_pssh(1), playready_pssh(3), CLEARKEY_PSSH] + DRM_TUPLES + DRM_CONTEXT + DRM_NEXT,
     assumptions=[
-        'C10: DrmContext(stream, keys, options) yields one DrmManifestContext per selected system in name order (its '
-        'constructor and iterator are not under contract); load_fragment(media, 0) returns the stored init segment; '
+        'C10: the handler contract uses DrmContext(stream, keys, options) as "one DrmManifestContext per selected system in name '
+        'order" - which is what the DrmContext.__init__ / __iter__ / DrmContextIterator.__next__ contracts prove for the seven '
+        'selections listed (systems, locations, option group and <name>_la_url each handed to their own system); '
+        'load_fragment(media, 0) returns the stored init segment; '
         'append_child appends the box to moov; `del moov.mehd` removes the mehd child or raises AttributeError; atom.encode '
         'serialises the tree as it stands (box bytes: group mp4)',
         'C10: byte identity of the untouched boxes is not proved (it rests on Mp4Atom.encode re-emitting unmodified boxes)',
     ],
-    not_covered=['byte-level identity of untouched boxes; size propagation of append/remove; DrmContext construction from the '
-                 'option (drm selection parsing: C16 bounded stand-in); the PRO bytes inside the PlayReady pssh (C11)'],
+    not_covered=['byte-level identity of untouched boxes; size propagation of append/remove; parsing of the drm option text into '
+                 'the selection list (C16 bounded stand-in); the PRO bytes inside the PlayReady pssh (C11)'],
 )
